@@ -36,7 +36,7 @@ THEOREMS = [
 LEAN_MODULES = ["PorepyVerif.C37.Props"]
 AUDIT = "PorepyVerif/C37/Audit.lean"
 DRIVER = "PorepyVerif/C37/Driver.lean"
-N = {"quick": 80, "thorough": 450}
+N = {"quick": 80, "thorough": 700}
 TOL = 1e-9
 RULE = ("a case = 1-8 diagonal blocks of sizes 1-6 (1x1 blocks frequent; thorough: up to 14 blocks); valid cases are STRATIFIED: the 16 "
         "combinations of (csr|csc storage of the block-diagonal matrix) x (uniform|non-uniform block sizes) x (all blocks full|some zero "
